@@ -496,12 +496,24 @@ func (S05) RunTape(t *sim.Tape, st *sim.Stats, keepLog bool) *sim.Outcome {
 		}
 	}
 
+	recheckLoaded := func(after string) {
+		// nodes handed out by earlier loads must still hold the stored value (they are kept and re-used as Store inputs)
+		for vi, n := range loaded {
+			c := codecOf(vproto[vi])
+			got, err := model.FromNode(n)
+			if err != nil || !model.Equal(got, vals[vi].v.Canon(c.SortMode)) {
+				o.Fail("loaded-node-changed", fmt.Sprintf("%s %s", bname0(bname), c.Name), "a node loaded earlier for value #%d no longer holds the stored value after %s: now %s, stored %s", vi, after, got, vals[vi].v.Canon(c.SortMode))
+				delete(loaded, vi)
+			}
+		}
+	}
 	for c := 0; c < ncl; c++ {
 		c := c
 		s.Go(fmt.Sprintf("client%d", c), func() {
 			for _, p := range plans[c] {
 				s.Yield("op")
 				do(c, p)
+				recheckLoaded(fmt.Sprintf("operation kind %d on value #%d", p.kind, p.val))
 			}
 		})
 	}
